@@ -553,6 +553,21 @@ def run(ck: Check):
         distinct.add(("period", it[1]["s"]))
     for it in run_pred("agree_period", t_str_obs, "agree_period", items, terms):
         ck.failure("corr-period", f"model and implementation disagree on XmlPeriod({it[1]['s']!r}): impl={it[2]}", {"op": it[1], "impl": it[2]})
+    # str() of the string-valued types: model (the stripped input) = implementation, and str() parses back to an equal value
+    for kind2 in ("period", "duration"):
+        its = cases_of(kind2)
+        if kind2 == "duration":
+            aux2 = run_impl("impl_c06_aux.py", [it[1]["s"] for it in its])
+            terms2 = [f"({cstr(it[1]['s'])}, {cbool(ax['float_ok'])}, {copt(it[2].get('str'), cstr)})" for it, ax in zip(its, aux2)]
+            ct2 = "str * bool * option str"
+        else:
+            terms2 = [f"({cstr(it[1]['s'])}, {copt(it[2].get('str'), cstr)})" for it in its]
+            ct2 = "str * option str"
+        for it in run_pred(f"{kind2}_strv", ct2, f"agree_{kind2}_str", its, terms2):
+            ck.failure(f"corr-{kind2}-str", f"model and implementation disagree on str(Xml{kind2.capitalize()}({it[1]['s']!r})): impl={it[2]}", {"op": it[1], "impl": it[2]})
+        for it in its:
+            if "str" in it[2] and it[2].get("again_eq") is not True:
+                ck.failure(f"{kind2}-str-roundtrip", f"Xml{kind2.capitalize()}(str(v)) != v for v built from {it[1]['s']!r}", {"op": it[1], "impl": it[2]})
     sp_items = [it for it in items if it[3].get("sp")]
     sp_terms = [f"({it[3]['sp']}, {cstr(it[1]['s'])}, {obs_tuple(it[2])})" for it in sp_items]
     for it in run_pred("acc_period", "period_sp * str * option (list (option Z))", "oracle_period_accepts", sp_items, sp_terms):
